@@ -163,7 +163,7 @@ def run(idx, rep, tier):
         if kind == "always":
             g = K.guard_of(fi, st)
             rep.check(g == G.TRUE, "R2", f"{fi.file}::{q} guard", f"verdict store must be unconditional in {q}; found guard {G.show(g)}", K.where(fi, st))
-            rep.check(unparse(t) == "self.matcher.csvpath.is_valid", "R2", f"{fi.file}::{q} target", f"stores to {unparse(t)}", K.where(fi, st))
+            rep.check(K.resolved_text(fi, t) == "self.matcher.csvpath.is_valid", "R2", f"{fi.file}::{q} target", f"stores to {K.resolved_text(fi, t)}", K.where(fi, st))
         elif kind == "formula":
             g = K.guard_of(fi, st)
             if q == "Function.matches":
@@ -487,8 +487,12 @@ def _r4(idx, rep):
         if len(paths) == 1 and len(sets[0]) == 1:
             v = sets[0][0]
             got = v.text if isinstance(v, Residual) else repr(v)
-        rep.check(nm in want and got == want[nm], "R4", f"{fi.file}::Failed alias {nm}",
-                  f"alias {nm} sets match to `{got}`, documented: `{want.get(nm)}`", K.where(fi, fi.node))
+        # failed() and valid() have their documented polarity; any further name of the same class must still be one of the two readings
+        # of the verdict (a new alias such as invalid() is not a new cause or a new meaning)
+        okn = got == want[nm] if nm in want else got in set(want.values())
+        rep.check(okn, "R4", f"{fi.file}::Failed alias {nm}",
+                  f"alias {nm} sets match to `{got}`, documented: `{want.get(nm, ' or '.join(sorted(want.values())))}`", K.where(fi, fi.node))
+    rep.check(set(want) <= set(names), "R4", f"{fi.file}::Failed names", f"failed() / valid() are registered as {sorted(names)}", K.where(fi, fi.node))
     rep.floor("R4", 2, "aliases of Failed")
 
 
